@@ -285,8 +285,9 @@ func (c *pmCtx) valueBlock(in string, container types.Object, blk *ast.BlockStmt
 	switch in {
 	case "query":
 		ix, isIx := as.Rhs[0].(*ast.IndexExpr)
-		if !isIx || len(as.Lhs) != 2 || identObj(c.info, ix.X) != container {
-			row.Undecided = append(row.Undecided, "query lookup is not `q, ok := query[<const>]`")
+		// `q, ok := query[K]` or, where presence is judged by len(q) alone, `q := query[K]`
+		if !isIx || (len(as.Lhs) != 2 && len(as.Lhs) != 1) || identObj(c.info, ix.X) != container {
+			row.Undecided = append(row.Undecided, "query lookup is not `q[, ok] := query[<const>]`")
 			return
 		}
 		k, isK := c.constStr(ix.Index)
@@ -295,7 +296,10 @@ func (c *pmCtx) valueBlock(in string, container types.Object, blk *ast.BlockStmt
 			return
 		}
 		row.Key = k
-		vals, okObj = c.info.Defs[as.Lhs[0].(*ast.Ident)], c.info.Defs[as.Lhs[1].(*ast.Ident)]
+		vals = c.info.Defs[as.Lhs[0].(*ast.Ident)]
+		if len(as.Lhs) == 2 {
+			okObj = c.info.Defs[as.Lhs[1].(*ast.Ident)]
+		}
 	case "header":
 		call, isCall := as.Rhs[0].(*ast.CallExpr)
 		if !isCall || len(as.Lhs) != 1 || calleeName(c.info, call) != "net/http.Header.Values" || len(call.Args) != 1 {
@@ -395,54 +399,41 @@ func (c *pmCtx) pathVarBlock(p types.Object, blk *ast.BlockStmt) {
 	rc := &rmCtx{p: c.p, info: c.info}
 	l := blk.List
 	bad := func(s string) { row.Undecided = append(row.Undecided, s) }
-	if len(l) < 6 {
-		bad("path variable block has fewer than 6 statements")
+	// extraction: whatever its spelling, up to the empty-segment check the block must have put the
+	// text before the next "/" (or the whole rest) into one variable and advanced p past it —
+	// decided by case-partitioned evaluation (strcut.go)
+	isEmptyCheck := func(st ast.Stmt) bool {
+		ifs, ok := st.(*ast.IfStmt)
+		if !ok {
+			return false
+		}
+		be, ok := ast.Unparen(ifs.Cond).(*ast.BinaryExpr)
+		if !ok || be.Op != token.EQL {
+			return false
+		}
+		call, ok := ast.Unparen(be.X).(*ast.CallExpr)
+		if !ok || len(call.Args) != 1 {
+			return false
+		}
+		if id, ok := call.Fun.(*ast.Ident); !ok || id.Name != "len" {
+			return false
+		}
+		k, ok := rc.constInt(be.Y)
+		return ok && k == 0 && identObj(c.info, call.Args[0]) != nil
+	}
+	vPath, at, res := pathVarExtraction(c.p, l, p, isEmptyCheck)
+	if res.Why != "" || vPath == nil {
+		bad("segment extraction: " + res.Why)
 		c.m.Pieces = append(c.m.Pieces, PathPiece{Var: "?"})
 		return
 	}
-	as, ok := l[0].(*ast.AssignStmt)
-	var idx types.Object
-	if ok && as.Tok == token.DEFINE && len(as.Lhs) == 1 {
-		if call, ok := rc.stdCall(as.Rhs[0], "strings.Index"); ok && len(call.Args) == 2 && identObj(c.info, call.Args[0]) == p {
-			if sep, ok := c.constStr(call.Args[1]); ok && sep == "/" {
-				idx = c.info.Defs[as.Lhs[0].(*ast.Ident)]
-			}
-		}
+	if c.p.ProvenSafe == nil {
+		c.p.ProvenSafe = map[ast.Node]bool{}
 	}
-	if idx == nil {
-		bad("segment end is not `idx := strings.Index(p, \"/\")`")
+	for n := range res.Proven {
+		c.p.ProvenSafe[n] = true
 	}
-	okFix := false
-	if ifs, ok := l[1].(*ast.IfStmt); ok && ifs.Else == nil && len(ifs.Body.List) == 1 {
-		if be, ok := ifs.Cond.(*ast.BinaryExpr); ok && be.Op == token.EQL && identObj(c.info, be.X) == idx {
-			if k, ok := rc.constInt(be.Y); ok && k == -1 {
-				if fix, ok := ifs.Body.List[0].(*ast.AssignStmt); ok && fix.Tok == token.ASSIGN && identObj(c.info, fix.Lhs[0]) == idx && types.ExprString(fix.Rhs[0]) == "len("+p.Name()+")" {
-					okFix = true
-				}
-			}
-		}
-	}
-	if !okFix {
-		bad("missing `if idx == -1 { idx = len(p) }`")
-	}
-	var vPath types.Object
-	if as, ok := l[2].(*ast.AssignStmt); ok && as.Tok == token.DEFINE && len(as.Lhs) == 1 {
-		if sl, ok := as.Rhs[0].(*ast.SliceExpr); ok && identObj(c.info, sl.X) == p && sl.Low == nil && identObj(c.info, sl.High) == idx {
-			vPath = c.info.Defs[as.Lhs[0].(*ast.Ident)]
-		}
-	}
-	if vPath == nil {
-		bad("segment is not `vPath := p[:idx]`")
-	}
-	okAdv := false
-	if as, ok := l[3].(*ast.AssignStmt); ok && as.Tok == token.ASSIGN && len(as.Lhs) == 1 && identObj(c.info, as.Lhs[0]) == p {
-		if sl, ok := as.Rhs[0].(*ast.SliceExpr); ok && identObj(c.info, sl.X) == p && sl.High == nil && identObj(c.info, sl.Low) == idx {
-			okAdv = true
-		}
-	}
-	if !okAdv {
-		bad("cursor is not advanced with `p = p[idx:]`")
-	}
+	l = append(append([]ast.Stmt{}, make([]ast.Stmt, 4)...), l[at:]...) // keep the indices of the code below: l[4] is the empty check
 	// empty check
 	okEmpty := false
 	if ifs, ok := l[4].(*ast.IfStmt); ok && ifs.Else == nil && c.isReject(ifs.Body.List) {
